@@ -3,7 +3,7 @@ import os, subprocess
 
 VERIF = os.path.dirname(os.path.dirname(os.path.dirname(os.path.abspath(__file__))))
 HARNESS_DIR = os.environ.get("LP_HARNESS_DIR", os.path.join(VERIF, "harness"))
-HARNESS_BIN = os.path.join(HARNESS_DIR, "target", "debug", "lp-harness")
+HARNESS_BIN = os.environ.get("LP_HARNESS_BIN", os.path.join(HARNESS_DIR, "target", "debug", "lp-harness"))
 DRIVER_BIN = os.path.join(VERIF, "lean", ".lake", "build", "bin", "lp-driver")
 
 
